@@ -30,6 +30,8 @@ C14_Total ==
   /\ Check("C14", "a syntactically valid script was reported with errors", (O.panic = "" /\ ~O.timeout /\ ~Unspec /\ T.accepts) => O.nerr = 0)
   /\ Check("C14", "an input outside the language (characters no token starts with, or tokens that form no program) was accepted without any error",
            (O.panic = "" /\ ~O.timeout /\ ~Unspec /\ ~T.accepts) => O.nerr > 0)
+  /\ Check("C14", "after parsing this text a fixed valid script is reported with errors (state kept between calls of the parser)",
+           ("sentinel" \in DOMAIN O) => O.sentinel)
   /\ Check("C14", "a reported error starts outside the text",
            (O.panic = "" /\ ~O.timeout) => \A i \in 1..Len(O.errs) : InDoc(O.errs[i][1], O.errs[i][2]))
 C18_Survives ==
